@@ -441,7 +441,21 @@ func suiteV17(c *vctx) {
 				if path == "cli-init" {
 					storeWould = false
 				}
-				cmd := exec.Command(bin, "--store", a.cfgPath, "--policy-type", "zxcvbn", "--policy-condition", cond, strings.TrimPrefix(path, "cli-"), user, pw)
+				// the three ways the command line takes the policy: global options, the environment, or both
+				// (the man page: options on the command line override the environment) — with a LAX policy in
+				// the place that must lose, or in no place at all
+				var cmd *exec.Cmd
+				lax := []string{"WHAWTY_AUTH_POLICY_TYPE=zxcvbn", "WHAWTY_AUTH_POLICY_CONDITION=score >= 0"}
+				switch cli % 3 {
+				case 0:
+					cmd = exec.Command(bin, "--store", a.cfgPath, "--policy-type", "zxcvbn", "--policy-condition", cond, strings.TrimPrefix(path, "cli-"), user, pw)
+				case 1:
+					cmd = exec.Command(bin, "--store", a.cfgPath, "--policy-type", "zxcvbn", "--policy-condition", cond, strings.TrimPrefix(path, "cli-"), user, pw)
+					cmd.Env = append(os.Environ(), lax...)
+				default:
+					cmd = exec.Command(bin, "--store", a.cfgPath, strings.TrimPrefix(path, "cli-"), user, pw)
+					cmd.Env = append(os.Environ(), "WHAWTY_AUTH_POLICY_TYPE=zxcvbn", "WHAWTY_AUTH_POLICY_CONDITION="+cond)
+				}
 				stored = cmd.Run() == nil
 			}
 			changed := dirDigest(a.dirPath) != before
